@@ -122,7 +122,7 @@ func genArg(rng *rand.Rand, big bool) string {
 }
 
 func c04(c *wk.Ctx) {
-	c.Note("rule", "each plan: an in-process directory server (unix; tcp too in thorough) hosting the freshly generated Probe service as 2 services x 3 objects; 4-32 caller goroutines over 1-4 sessions (own proxies each) issue calls work(token, arg) with unique tokens and argument sizes 0 B - 256 KiB to random objects while method bodies park and are released in PRNG order (replies cross); some calls are cancelled through their context while parked; two goroutines call through two proxies obtained from one bus.Cache on one connection; three goroutines call through their own proxies obtained from the hosting server's in-process session; a raw harness connection sends frames of every message type (Post, Cancel, Capability, Reply, Error, Event, Cancelled) addressed to the real action with fresh tokens, each followed by a barrier Call on the same connection and object, then a burst of 20-80 posts and calls pipelined in one write (one response frame per call, none per post, per-token execution counts). Oracle: each call returns once, success => exactly f(own token, own arg) and exec[token]==1; otherwise exec<=1; Post: exec<=1 and no frame with the post's id comes back; any other type: exec==0. Stream huge: a call whose arguments fit but whose result is a string of about the maximal length (reply payload from a few bytes under to a few bytes over the 10 MiB limit): one outcome, own result or an error, never a hang. Stream lent: one session lends a client-hosted Helper object to each of 2-4 Desk objects of one service over its single connection; other sessions call relay() on the desks at the same moment (helper bodies park and are released in PRNG order): each call returns what its own helper computed for its own arguments, that helper ran once for the token, the other helpers never; then a third party gets the lent objects from the desks and calls their parameterless poke() through contexts it cancels in flight: executions <= calls issued. In one plan out of three ONE helper is lent to every desk (several forwarders for one client-hosted object on one connection). Stream direct: 1-3 objects created with the generated CreateProbe helper are called through their in-process direct proxy and through 1-2 remote sessions at the same moment (two mailboxes feed one object), with the object's statistics / traces switched on in two plans out of three: own result, exactly one execution, every call returns. Distinct non-trivial = distinct plans in which at least two calls overlapped and at least one reply-order inversion was observed.")
+	c.Note("rule", "each plan: an in-process directory server (unix; tcp too in thorough) hosting the freshly generated Probe service as 2 services x 3 objects; 4-32 caller goroutines over 1-4 sessions (own proxies each) issue calls work(token, arg) with unique tokens and argument sizes 0 B - 256 KiB to random objects while method bodies park and are released in PRNG order (replies cross); some calls are cancelled through their context while parked; one call in four is made through Proxy.CallID, which returns the answer's bytes undecoded; two goroutines call through two proxies obtained from one bus.Cache on one connection; three goroutines call through their own proxies obtained from the hosting server's in-process session; a raw harness connection sends frames of every message type (Post, Cancel, Capability, Reply, Error, Event, Cancelled) addressed to the real action with fresh tokens, each followed by a barrier Call on the same connection and object, then a burst of 20-80 posts and calls pipelined in one write (one response frame per call, none per post, per-token execution counts). Oracle: each call returns once, success => exactly f(own token, own arg) and exec[token]==1; otherwise exec<=1; Post: exec<=1 and no frame with the post's id comes back; any other type: exec==0. Stream huge: a call whose arguments fit but whose result is a string of about the maximal length (reply payload from a few bytes under to a few bytes over the 10 MiB limit): one outcome, own result or an error, never a hang. Stream lent: one session lends a client-hosted Helper object to each of 2-4 Desk objects of one service over its single connection; other sessions call relay() on the desks at the same moment (helper bodies park and are released in PRNG order): each call returns what its own helper computed for its own arguments, that helper ran once for the token, the other helpers never; then a third party gets the lent objects from the desks and calls their parameterless poke() through contexts it cancels in flight: executions <= calls issued. In one plan out of three ONE helper is lent to every desk (several forwarders for one client-hosted object on one connection). Stream large: 6-12 goroutines share one connection and call with arguments (and answers) of 66-300 KiB through Proxy.CallID: a successful answer is byte for byte the encoding of the call's own result. Stream direct: 1-3 objects created with the generated CreateProbe helper are called through their in-process direct proxy and through 1-2 remote sessions at the same moment (two mailboxes feed one object), with the object's statistics / traces switched on in two plans out of three: own result, exactly one execution, every call returns. Distinct non-trivial = distinct plans in which at least two calls overlapped and at least one reply-order inversion was observed.")
 	c.Cases("plan", c.Pick(72, 2000), func(i int, rng *rand.Rand) {
 		transport := "unix"
 		if c.Thorough() && i%3 == 2 {
@@ -132,6 +132,7 @@ func c04(c *wk.Ctx) {
 	})
 	c.Cases("huge", c.Pick(14, 140), func(i int, rng *rand.Rand) { c04huge(c, i, rng) })
 	c.Cases("lent", c.Pick(40, 1500), func(i int, rng *rand.Rand) { c04lent(c, i, rng) })
+	c.Cases("large", c.Pick(12, 400), func(i int, rng *rand.Rand) { c04large(c, i, rng) })
 	c.Cases("direct", c.Pick(36, 1500), func(i int, rng *rand.Rand) { c04direct(c, i, rng) })
 }
 
@@ -169,7 +170,7 @@ func c04one(c *wk.Ctx, i int, rng *rand.Rand, transport string) {
 
 	var mu sync.Mutex
 	var recs []*callRec
-	var inflight, maxInflight int64
+	var inflight, maxInflight, rawCalls int64
 	var wg, ready sync.WaitGroup
 	var setupMu sync.Mutex // proxy creation is sequential: at most one metaObject call in flight
 	start := make(chan struct{})
@@ -233,7 +234,23 @@ func c04one(c *wk.Ctx, i int, rng *rand.Rand, transport string) {
 				}
 			}
 			rec.call = now()
-			rec.result, rec.err = p.Work(rec.token, rec.arg)
+			if cancel == nil && r.Intn(4) == 0 {
+				// the same call at the level below the generated proxy: Proxy.CallID hands back the bytes
+				// of the answer as they are (an answer that is not this call's own is not filtered out
+				// by a decoder that happens to choke on it)
+				var b []byte
+				b, rec.err = p.Proxy().CallID(100, workArgs(rec.token, rec.arg))
+				if rec.err == nil {
+					if got, ok := strResult(b); ok {
+						rec.result = got
+					} else {
+						rec.result = fmt.Sprintf("(%d bytes which are not the encoding of a string: %x...)", len(b), b[:minI(len(b), 24)])
+					}
+				}
+				atomic.AddInt64(&rawCalls, 1)
+			} else {
+				rec.result, rec.err = p.Work(rec.token, rec.arg)
+			}
 			rec.ret = now()
 			atomic.AddInt64(&inflight, -1)
 			mu.Lock()
@@ -375,6 +392,24 @@ func c04one(c *wk.Ctx, i int, rng *rand.Rand, transport string) {
 			for _, of := range others {
 				if of.H.ID == id {
 					rawBack = append(rawBack, fmt.Sprintf("RESPONSE0 to a post addressed to service 0 authenticate: frame type %d", of.H.Type))
+				}
+			}
+			// nor do the other kinds of message run (and answer) its authenticate method
+			for _, typ := range []uint8{qnet.Cancel, qnet.Capability, qnet.Reply, qnet.Error, qnet.Event, qnet.Cancelled} {
+				id := rcn.id()
+				if err := rcn.send(typ, 0, 0, 8, id, capMap("ClientServerSocket", true)); err != nil {
+					rawErr = "raw send: " + err.Error()
+					return
+				}
+				var others []rawFrame
+				if _, err := rcn.call(w.svcs[0].id, 1, workID, workArgs(uint64(6600)<<32|uint64(typ), "barrier0"), &others); err != nil {
+					rawErr = "raw barrier: " + err.Error()
+					return
+				}
+				for _, of := range others {
+					if of.H.ID == id {
+						rawBack = append(rawBack, fmt.Sprintf("RESPONSE0 to a message of type %d addressed to service 0 authenticate: frame type %d", typ, of.H.Type))
+					}
 				}
 			}
 		}
@@ -636,8 +671,12 @@ func c04one(c *wk.Ctx, i int, rng *rand.Rand, transport string) {
 	}
 	c.Count("raw_burst_frames", int64(len(burst)))
 	for _, b := range rawBack {
-		if strings.HasPrefix(b, "RESPONSE0") {
+		if strings.HasPrefix(b, "RESPONSE0 to a post") {
 			c.Viol("plan", i, "target=service0/type=post/effect=response", b, detail)
+			return
+		}
+		if strings.HasPrefix(b, "RESPONSE0") {
+			c.Viol("plan", i, "target=service0/type=other/effect=response", b, detail)
 			return
 		}
 		if strings.HasPrefix(b, "RESPONSE") {
@@ -668,6 +707,7 @@ func c04one(c *wk.Ctx, i int, rng *rand.Rand, transport string) {
 		}
 	}
 	c.Count("calls", int64(len(recs)))
+	c.Count("calls_made_through_Proxy.CallID_(raw_answer_bytes)", atomic.LoadInt64(&rawCalls))
 	c.Count("calls_ok", int64(okCalls))
 	c.Count("calls_error", int64(errCalls))
 	c.Count("calls_cancelled_by_context", int64(canceled))
